@@ -120,3 +120,14 @@ CLAIMS["C19"] = (
     "Exact zeros are demanded from warm starts only for convex separable penalties (block penalties shrink geometrically, flat "
     "non-convex penalties are stationary anywhere beyond gamma*alpha). Poisson/Gamma/Cox not run on rescaled designs.",
     "DESIGN.md §4 C19")
+CLAIMS["C05"] = (
+    "model_checking",
+    "explicit-state breadth-first search over operation histories (sequences of solve / path / set_params+fit on persistent buffers and estimators) with canonical state hashing, every transition executed on the real code",
+    "(a) BFS over all sequences of solve(alpha_i), 4 alphas in any order with repetition, depth 3 (4 thorough), on persistent (w, Xw) "
+    "buffers and a compiled penalty, from cold and 3-4 warm starts, for 15 solver configurations (AndersonCD, ProxNewton, "
+    "GroupBCD, MultiTaskBCD, GramCD; p0 in {1,2,10}; intercept; dense/CSC) x 3 designs, states merged on (w, Xw, alpha) bytes; "
+    "(b) path() for every permutation of a 3-value grid, singleton / repeated / above-critical grids, with and without w_init; "
+    "(c) estimator histories fit -> (set_params -> fit)^d with warm_start=True over all parameter moves. After every transition: "
+    "certificate of the current problem, caller's Xw == X w + b, optimality-gap theorem against the cold start / a fresh estimator.",
+    "Trusted: mc/ref certificate and objective. Depth-bounded (closure is reported when reached). Gap theorem only for convex problems.",
+    "DESIGN.md §4 C05")
